@@ -529,6 +529,108 @@ def t13_norm(run, fx):
         run.ok(rule, "default_normalize equals the specification on %d assignments" % cnt)
 
 
+# ---- T13-SEG: one step of the avar segment map ---------------------------------------------------------------------------------------
+def t13_seg(run, fx):
+    import fnread
+    import loops
+    import pathwalk as pw
+    rule = "T13-SEG"
+    run.rule(rule, "avar segment map (OpenType avar, 'find the first axisValueMap whose fromCoordinate is >= the value'): one iteration of the loop of "
+                   "SegmentMap::normalize, read as a decision list over the value v, the previous record (sf, st) and the current record (ef, et) - "
+                   "with exact rational arithmetic on a grid of all orderings - does what the specification says: ef == v yields et; ef > v yields "
+                   "st + (v - sf) / (ef - sf) * (et - st); otherwise the scan goes on with the current record as the previous one; without a previous "
+                   "record it always goes on; when the records run out the value is returned unchanged")
+    b = fx.body("tables::variable_fonts::avar::SegmentMap::<'_>::normalize")
+    if b is None:
+        return run.anchor_missing(rule, "SegmentMap::normalize")
+    nl = loops.natural_loops(b)
+    if len(nl) != 1:
+        return run.fail(rule, "seg-shape", "SegmentMap::normalize has %d loops; the rule reads one scan over the map records" % len(nl), "%s:%s" % (b.file, b.line))
+    h = nl[0][0]
+    w = pw.Walk(b, None, [h], start=h)
+    if w.dropped or not w.paths:
+        return run.fail(rule, "seg-shape", "the loop of SegmentMap::normalize cannot be read as a decision list (%s)" % ("; ".join(w.dropped) or "no path"), "%s:%s" % (b.file, b.line))
+    vname = b.local_name(2) if b.arg_count >= 2 else None
+
+    class Ev(fnread.GridEval):
+        def atom(self, t):
+            if t[0] == "discr":
+                txt = sym.show(t[1], 0)
+                if "next(" in txt:
+                    return Fraction(self.a["has_e"])
+                if t[1][0] == "init" or "init" in str(t[1])[:40]:
+                    return Fraction(self.a["has_s"])
+                return None
+            if t[0] == "field" and t[2] in ("from_coordinate", "to_coordinate"):
+                txt = sym.show(t, 0)
+                key = ("e" if "next(" in txt else "s") + ("f" if t[2] == "from_coordinate" else "t")
+                return self.a[key]
+            return None
+
+    def outcome(a):
+        ev = Ev(dict(a))
+        ev.a[vname] = a["v"]
+        hits = []
+        for conds, env, end, kind in w.paths:
+            try:
+                if all(ev.holds(c) for c in conds):
+                    hits.append((env, kind))
+            except fnread.DivZero:
+                hits.append((None, "div0"))
+        if len(hits) != 1:
+            raise fnread.Undecided("%d paths apply" % len(hits))
+        env, kind = hits[0]
+        if kind == "div0":
+            return ("div0",)
+        if kind == "return":
+            r = env.get("_0", ("init", "_0"))
+            try:
+                return ("done", ev.ev(r))
+            except fnread.DivZero:
+                return ("div0",)
+        # back at the loop header: the value must be untouched and the previous record must now be the current one
+        nv = env.get(vname)
+        if nv is not None and ev.ev(nv) != a["v"]:
+            return ("changed-and-continued",)
+        ss = env.get("start_seg")
+        txt = sym.show(ss, 0) if ss is not None else ""
+        return ("continue", "e" if "next(" in txt else ("s" if ss is None else "?"))
+
+    def spec(a):
+        if not a["has_e"]:
+            return ("done", a["v"])
+        if not a["has_s"]:
+            return ("continue", "e")
+        if a["ef"] == a["v"]:
+            return ("done", a["et"])
+        if a["ef"] > a["v"]:
+            return ("done", a["st"] + (a["v"] - a["sf"]) / (a["ef"] - a["sf"]) * (a["et"] - a["st"]))
+        return ("continue", "e")
+    import itertools
+    grid = [Fraction(k, 2) for k in (-2, -1, 0, 1, 2)]
+    n = 0
+    bad = None
+    try:
+        for has_e, has_s in ((0, 0), (0, 1), (1, 0), (1, 1)):
+            for v, sf, st, ef, et in itertools.product(grid, repeat=5):
+                if sf >= ef:
+                    continue        # fromCoordinate values increase along the map
+                a = {"has_e": has_e, "has_s": has_s, "v": v, "sf": sf, "st": st, "ef": ef, "et": et}
+                n += 1
+                got, want = outcome(a), spec(a)
+                if got != want and bad is None:
+                    bad = (a, got, want)
+    except fnread.Undecided as e:
+        return run.fail(rule, "seg-shape", "one iteration of SegmentMap::normalize cannot be evaluated (%s): the segment map is not decided" % e, "%s:%s" % (b.file, b.line))
+    if bad:
+        a, got, want = bad
+        run.fail(rule, "seg", "one step of SegmentMap::normalize differs from the specification: with value %s, previous record %s -> %s (%s) and current record %s -> %s (%s) it "
+                 "yields %s, the specification %s" % (a["v"], a["sf"], a["st"], "present" if a["has_s"] else "absent", a["ef"], a["et"], "present" if a["has_e"] else "absent", got, want),
+                 "%s:%s" % (b.file, b.line))
+    else:
+        run.ok(rule, "SegmentMap::normalize: one scan step equals the specification on %d assignments" % n)
+
+
 def check(run, fx, tier, floors=True):
     import ignored
     ignored.run_for(run, fx, 'C13', floors)
@@ -543,6 +645,8 @@ def check(run, fx, tier, floors=True):
     if floors or fx.body("tables::variable_fonts::avar::SegmentMap::<'_>::normalize") is not None:
         t13_dom(run, fx)
         t13_avar(run, fx)
+        if floors:
+            t13_seg(run, fx)
     t13_len(run, fx)
     if floors or fx.body("tables::variable_fonts::fvar::default_normalize") is not None:
         t13_zero(run, fx)
